@@ -83,6 +83,6 @@ NothingLost == phase \in {"run", "done"} => \A x \in 1..Len(orig) :
 TextKept == phase \in {"run", "done"} => \A x \in 1..Len(orig) : orig[x].k \in {"a", "par"} => InArgs(orig[x]) \/ InBuf(orig[x])
 \* an unclosed group comes with exactly one error mark in the input and one for the caller
 RecoveryMarks == Cardinality({x \in 1..Len(buf) : buf[x].k = "mark"}) <= recovered
-Terminates == <>(phase = "done" \/ phase = "build")
+Terminates == (phase = "run") ~> (phase = "done")
 Dump == phase = "done" => PrintT("@@" \o ToJson([toks |-> orig, codes |-> codes, args |-> args, delims |-> delims, rest |-> buf]))
 =============================================================================
